@@ -2,7 +2,7 @@
 import ast
 
 from ..index import AnalysisError, ClassInfo, norm, walk_no_nested
-from ..astutil import dotted, single_return_expr
+from ..astutil import dotted, single_return_expr, is_self_attr
 
 MOD = "problog.logic"
 
@@ -294,6 +294,83 @@ def rule_h4(repo, col, root):
                construct="Term.__eq__ functor projection: %s ; unify_value: %s" % (eq_proj, u_sig), function="Term.__eq__")
 
 
+def rule_h7(repo, col):
+    """memo invalidation: a method that re-binds an attribute of the equality key must reset every memo computed from it (hash, signature, printed text)"""
+    from .. import dtable
+
+    c = repo.cls(MOD, "Term")
+    m = c.module
+    init = c.methods.get("__init__")
+    if init is None:
+        raise AnalysisError("Term.__init__ missing")
+    none_init = set()
+    for st in walk_no_nested(init.node):
+        if isinstance(st, ast.Assign) and is_self_attr(st.targets[0]) and isinstance(st.value, ast.Constant) and st.value.value is None:
+            none_init.add(st.targets[0].attr)
+    # memo -> key attributes read where the memo is computed
+    depends = {}
+    for name, f in c.methods.items():
+        if name == "__init__":
+            continue
+        for st in ast.walk(f.node):
+            if isinstance(st, ast.Assign) and is_self_attr(st.targets[0]) and st.targets[0].attr in none_init and not (isinstance(st.value, ast.Constant) and st.value.value is None):
+                memo = st.targets[0].attr
+                # the computation of the memo: the body of the nearest `if` that contains the assignment (the `if memo is None:` idiom), else the whole method
+                parents = m.parents()
+                scope = [f.node]
+                cur, child = parents.get(st), st
+                while cur is not None and cur is not f.node:
+                    if isinstance(cur, ast.If) and any(child is b for b in cur.body):
+                        scope = cur.body
+                        break
+                    child, cur = cur, parents.get(cur)
+                reads = set()
+                for top in scope:
+                    for x in ast.walk(top):
+                        if isinstance(x, ast.Attribute) and isinstance(x.ctx, ast.Load):
+                            reads.add(_base_attr(x.attr))
+                depends.setdefault(memo, set()).update(reads)
+    if len(depends) < 3:
+        raise AnalysisError("Term: memo attributes not found (%s)" % sorted(depends))
+    n = 0
+
+    class _F(object):
+        pass
+
+    allfuncs = []
+    for fd in c.node.body:
+        if isinstance(fd, ast.FunctionDef) and fd.name != "__init__":
+            o = _F()
+            o.node = fd
+            setter = any(isinstance(d, ast.Attribute) and d.attr == "setter" for d in fd.decorator_list)
+            o.qualname = "Term.%s%s" % (fd.name, " (setter)" if setter else "")
+            allfuncs.append((fd.name, o))
+    for name, f in allfuncs:
+        writes = set()
+        for st in walk_no_nested(f.node):
+            if isinstance(st, (ast.Assign, ast.AugAssign)):
+                tg = st.targets[0] if isinstance(st, ast.Assign) else st.target
+                if is_self_attr(tg) and tg.attr in ("__functor", "__args", "__arity"):
+                    writes.add(tg.attr)
+        if not writes:
+            continue
+        paths = [p for p in dtable.extract(f.node, opaque_loops=True) if p.end != "raise"]
+        for key in sorted(writes):
+            for memo in sorted(depends):
+                if key not in depends[memo]:
+                    continue
+                n += 1
+                ok = all(any(fn == "<store>" and a[0] == "self.%s" % memo and a[1] == "None" for fn, a, _ in p.calls) for p in paths)
+                col.decide("H7", m, f.node, ok, "%s re-binds self.%s and resets the memo self.%s" % (f.qualname, key, memo),
+                           "%s re-binds self.%s but does not reset self.%s, which is computed from it and memoised: after the assignment the term %s" % (
+                               f.qualname, key, memo,
+                               "hashes like the old term although it is equal to the new one (== and hash disagree)" if "hash" in memo and memo != "reprhash"
+                               else "still prints (and hashes by text) as the old term, so printing it and parsing the text does not give an equal term" if "repr" in memo
+                               else "keeps the stale value"),
+                           construct="%s: reset of self.%s after writing self.%s" % (f.qualname, memo, key), function=f.qualname)
+    col.floor("H7.memo_resets", n, 3)
+
+
 def run(repo, col):
     col.rule("H1", "__eq__ and __hash__ defined together")
     col.rule("H2", "cross-class equality requires a shared hash")
@@ -308,3 +385,5 @@ def run(repo, col):
     rule_h3(repo, col, root)
     rule_h4(repo, col, root)
     rule_h5_h6(repo, col, root)
+    col.rule("H7", "memo invalidation: mutators of key attributes reset hash / signature / printed text")
+    rule_h7(repo, col)
